@@ -71,6 +71,11 @@ def check(ctx):
     # "at or after the total duration the terminal value is produced": the end test agrees with the reported duration
     from rules import c03
     c03.rule_duration_formula(ctx, "R3", tab)
+    # a keyframe value can only be reached exactly if the lookup tables line up: every sub-timeline ends with a held frame
+    # at 100 % (splitter) and the generated timeline searches the builder arguments' own boundary table (derive wiring)
+    c01.rule_split(ctx, F, "R4")
+    from rules import derive_rules
+    derive_rules.rule_wiring(ctx, "R4")
     ctx.notes.append("not decided: 'within a few ulps' at interior keyframes (needs ease(1) = 1 and division rounding), "
                      "every cycle k (periodicity of % in floats)")
     ctx.assumptions += ["cycle duration finite > 0", "values representable in f32 (the property's premise)"]
